@@ -19,7 +19,8 @@ FieldKinds == {"string", "int", "int64", "uint8", "float64", "bool", "bytes", "t
                "ptr-string", "ptr-struct", "slice-string", "slice-struct", "slice-ptr-struct", "array-int",
                "map-string", "map-struct", "map-int-key", "struct", "embedded", "embedded-ptr",
                "self-ptr", "self-slice", "self-map", "mutual", "shared-twice", "deep-shared", "array-byte",
-               "emb-unexported", "emb-unexported-ptr", "self-rich", "anon-str", "anon-int"}
+               "emb-unexported", "emb-unexported-ptr", "self-rich", "anon-str", "anon-int",
+               "ptr-int", "ptr-float64", "ptr-bool", "ptr-deep-shared"}
 TagClasses == {"none", "renamed", "omitempty", "renamed-omitempty", "dash", "string-opt", "js-required", "js-description"}
 Styles == {"inline", "defs", "nested"}
 
